@@ -25,6 +25,8 @@ UNITS = {
                    verify=['keys', 'key_transforms', 'trace'], default_tags={'key_transforms': ['C14'], 'keys': ['C14']}),
     'converter': dict(modules=['key_codes', 'events', 'keys', 'fancy_keys', 'physical_keyboard_layouts', 'char_production_map', 'fancy_layout_interpreting'], spec=[],
                       default_tags={'fancy_layout_interpreting': ['C14'], 'fancy_keys': ['C14'], 'keys': ['C14']}),
+    'glue': dict(modules=['key_codes', 'events', 'keys', 'key_transforms', 'fancy_keys', 'physical_keyboard_layouts', 'char_production_map', 'fancy_layout_interpreting'],
+                 spec=['trace.rs', 'glue.rs'], verify_only=['glue'], default_tags={'glue': ['C14']}),
     'loop': dict(modules=['key_codes', 'events', 'keys', 'key_transforms', 'tablet_mode_switch_reader', 'remapping_loop'], spec=[],
                  verify_only=['remapping_loop'], default_tags={'remapping_loop': ['C10', 'C12', 'C20', 'C11']}),
 }
@@ -185,6 +187,8 @@ def run_unit(name, tier='quick', use_cache=True, extra_args=(), log=print):
     key = hashlib.sha256((asm.text + '\0' + ' '.join(args) + '\0v3').encode()).hexdigest()[:24]
     cpath = os.path.join(CACHE, '%s-%s.json' % (name, key))
     obls, marks = obligations_of(asm.text, asm.items, cfg)
+    if cfg.get('verify_only'):
+        obls = [o for o in obls if o['module'] in cfg['verify_only']]
     lines = asm.text.split('\n')
     res = None
     if use_cache and os.path.exists(cpath):
